@@ -279,6 +279,7 @@ class ErrorLog:
         self.eps_arg_seen = set()
         self.ret_mask = None      # mask returned by the wrapped function at the last call
         self.history = []         # compact per-iteration record (max over active rows)
+        self.P_judged = None      # per row: the iterate the last convergence decision was taken on
 
     def install(self):
         from seqm.seqm_functions import scf_loop as sl
@@ -302,6 +303,10 @@ class ErrorLog:
                 rms = torch.linalg.norm(dP, dim=(1, 2)) / matrix_size_sqrt.to(dP.dtype)
                 mx = dP.abs().amax(dim=(1, 2))
                 di = diis_error.detach().clone() if diis_error is not None else None
+                if log.P_judged is None:
+                    log.P_judged = P.detach().clone()
+                else:
+                    log.P_judged[act] = P.detach()[act]
             out = orig(Pold, P, notconverged, matrix_size_sqrt, dm_err, dm_element_err, Eelec_new, err, Eelec, eps,
                        diis_error=diis_error, unrestricted=unrestricted)
             try:
